@@ -3,11 +3,11 @@ CONSTANTS
   Ids = {"x"}
   MaxLen = 3
   MaxDepth = 2
-  MixKinds = FALSE
-  AsmForms = FALSE
+  MixKinds = TRUE
+  AsmForms = TRUE
   DevsOn = {"ExternInheritsNoLinkage", "ThreadNoTentative", "ThreadMismatchNotDiagnosed", "InlineLateExternal", "NoUsedInternalUndefDiag"}
   OkPrefix = FALSE
-  SampleMod = 8
+  SampleMod = 2
   Emit = "all"
 INVARIANTS Inv_Refines Inv_OneDef Inv_ExportedExt Inv_FiredExplains Inv_Emit
 CHECK_DEADLOCK FALSE
